@@ -224,6 +224,15 @@ func (tf *tagFilter) Init(name, key, value []byte, isNegative, isRegexp bool) er
 	tf.name = append(tf.name[:0], name...)
 	tf.isNegative = isNegative
 	tf.isRegexp = isRegexp
+	if isRegexp {
+		// /^literal$/ (and /^$/) selects exactly one value: evaluate it as key = 'literal', as the SELECT
+		// path does after influxql's RewriteRegexConditions.
+		if literal, ok := exactLiteralRegexp(value); ok {
+			tf.isRegexp = false
+			tf.value = append(tf.value[:0], literal...)
+			value = tf.value
+		}
+	}
 	tf.matchCost = 0
 	tf.reSuffixMatch = nil
 	tf.isEmptyValue = false
@@ -277,6 +286,27 @@ func (tf *tagFilter) Init(name, key, value []byte, isNegative, isRegexp bool) er
 	}
 
 	return nil
+}
+
+// exactLiteralRegexp reports whether expr is ^literal$ (case sensitive, no multi-line flag) or ^$
+// and returns the literal.
+func exactLiteralRegexp(expr []byte) ([]byte, bool) {
+	sre, err := syntax.Parse(string(expr), syntax.Perl)
+	if err != nil {
+		return nil, false
+	}
+	sre = sre.Simplify()
+	if sre.Op != syntax.OpConcat || len(sre.Sub) < 2 || len(sre.Sub) > 3 ||
+		sre.Sub[0].Op != syntax.OpBeginText || sre.Sub[len(sre.Sub)-1].Op != syntax.OpEndText {
+		return nil, false
+	}
+	if len(sre.Sub) == 2 {
+		return nil, true
+	}
+	if !isLiteral(sre.Sub[1]) || sre.Sub[1].Op != syntax.OpLiteral {
+		return nil, false
+	}
+	return []byte(string(sre.Sub[1].Rune)), true
 }
 
 func (tf *tagFilter) InfluxRegrep() (regexpCacheValue, error) {
